@@ -120,6 +120,20 @@ def run(ctx):
                                    "replay_cmd": "./check C05 --replay <this file>"})
         if len(res.violations) >= 6:
             break
+    # fault sweep: implementation side only (the model has no failing open/mkdtemp/chmod; see report)
+    fcases = L.fault_cases([5, 28, 1] if thorough else [28])
+    fimpl = C.run_cases(exe, ["\n".join(c) + "\n" for c in fcases], timeout=900)
+    fstats = {}
+    for ci, case in enumerate(fcases):
+        msg, what = L.monitor_fault(fimpl[ci][0], fimpl[ci][1])
+        fstats[what] = fstats.get(what, 0) + 1
+        res.add_case(tuple(case), what != "no-failure")
+        if msg is None:
+            res.traces_validated += 1
+        elif len(res.violations) < 6:
+            res.violation("impl-monitor", "fault sweep: " + msg, {"script": case, "impl_out": fimpl[ci][0][-60:],
+                                                                  "fault_sweep": True,
+                                                                  "replay_cmd": "./check C05 --replay <this file>"})
     res.rule = ("lab scripts over {transport shm|socket; daemon umask 022 077 0 027 002 0277; 1..8 peers per case with real "
                 "and effective uid/gid drawn from {0, 1, 1000, 65534} (30% with effective != real); accept behaviour = "
                 "decision in {0, -EACCES, -EAGAIN, -1, -ENOMEM, 1, -EIO, -ENOTCONN, 7} and optional auth_set(uid, gid, mode) with "
@@ -131,7 +145,7 @@ def run(ctx):
                 "non-trivial when the accept callback ran at least once; distinct = distinct scripts")
     res.samples = [{"script": c} for c in cases[:2] + cases[ncorp:ncorp + 2]]
     res.extra = {"case_kinds": {"corpus": ncorp, "random": ncases}, "model_variant": variant,
-                 "tree_carries_fix_C05": variant == "fixed", "injection_stream_generated": inject, "foreign_datagrams": inj,
+                 "tree_carries_fix_C05": variant == "fixed", "injection_stream_generated": inject, "fault_sweep_outcomes": fstats, "foreign_datagrams": inj,
                  "tree_carries_fix_C05_sender_check": inj == "filtered", "by_transport": by_tr, "by_umask": by_umask,
                  "auth_set_modes": by_mode, "decisions": by_dec, "totals": stats,
                  "kernel_oracle_when_effective_differs_from_real": scm,
@@ -164,6 +178,16 @@ def replay(ctx, payload):
     variant = L.tree_variant(exe)
     inj = L.tree_inject_variant(exe)
     case = payload["script"]
+    if payload.get("fault_sweep"):
+        r = C.run_cases(exe, ["\n".join(case) + "\n"], timeout=120)
+        msg, what = L.monitor_fault(r[0][0], r[0][1])
+        print("impl :", r[0][0][-40:])
+        if msg:
+            print("VIOLATION property=%s replay=%s" % (ID, "<replayed>"))
+            print("DETAIL: impl-monitor: fault sweep: %s" % msg)
+            return 1
+        print("replay: property holds on this script now (%s)" % what)
+        return 0
     im, mo = L.execute([case], exe, model, variant, inj)
     j = L.judge(im[0], mo[0], _known_ids(ctx))
     print("impl :", im[0][0][-60:])
